@@ -31,7 +31,8 @@ def convention(a):
 
 def lon_matches(reported, true_lon, conv):
     opts = {"180": [to180(true_lon)], "360": [to360(true_lon)], "either": [to180(true_lon), to360(true_lon)]}[conv]
-    return any(np.allclose(reported, o, atol=1e-9) for o in opts)
+    # -180 and +180 are the same meridian in the [-180, 180] convention
+    return any(np.allclose(reported, o, atol=1e-9) or (abs(abs(float(reported)) - 180.0) < 1e-9 and abs(abs(float(o)) - 180.0) < 1e-9) for o in opts)
 
 
 def stations(rng):
@@ -56,7 +57,7 @@ def run(ctx):
     import xarray as xr
     import wavespectra  # noqa
 
-    for i, rng in ctx.cases("sel", ctx.n(2400, 80000)):
+    for i, rng in ctx.cases("sel", ctx.n(8000, 160000)):
         one(ctx, rng, xr)
 
 
